@@ -8,11 +8,11 @@ from .common import *
 COMBOS = [(1, 1), (2, 1), (3, 1), (1, 2), (2, 2), (3, 2), (4, 2), (2, 3), (3, 3), (4, 3)]
 
 
-def run_stats_values(run, prop, cases, binp, codes, what):
+def run_stats_values(run, prop, cases, binp, codes, what, tag=""):
     workdir = os.path.join(COQ, "run", prop)
     for i, c in enumerate(cases):
         c["id"] = i
-    results = run_harness(binp, "scenario", cases, workdir, timeout_ms=30000)
+    results = run_harness(binp, "scenario", cases, workdir, timeout_ms=30000, tag=tag)
     terms, idx = [], []
     nerr = 0
     for c, r in zip(cases, results):
@@ -70,6 +70,9 @@ def main(tier, seed, replay=None):
                                              noise=(1e-9 if sc == "f64" else 1e-5) * rng.choice([1.0, 0.1, 10.0]), qbits=(44 if sc == "f64" else 30),
                                              quant=None, probs=[0.683]))
     results, idx, hist, nerr = run_stats_values(run, "C13", cases, binp, (24, 25, 26, 27, 28, 31), "covariance")
+    # the same problems in the release profile (no debug assertions, no overflow checks): the statistics must not depend on it
+    rel_cases = [c for k, c in enumerate(cases) if tier != "quick" or k % 2 == 0]
+    _, ridx, rhist, _ = run_stats_values(run, "C13", rel_cases, build_harness("release"), (24, 25, 26, 27, 28, 31), "covariance (release profile)", tag="rel")
     # ordering: linear coefficients first (in basis order) then nonlinear parameters (declaration order) is what code 24 checks:
     # H's columns are [Phi | D_1 c | ... | D_P c]; slices are checked by code 27
     run.coverage.update({
@@ -81,6 +84,7 @@ def main(tier, seed, replay=None):
                 "accessors exactly the diagonal segments split at M, correlation^2 * c_ii * c_jj = c_ij^2 with matching sign and |corr| <= 1"
                 % (COMBOS,),
         "value_code_histogram": {str(k): v for k, v in hist.items()}, "fits_that_returned_err": nerr,
+        "release_profile_value_code_histogram": {str(k): v for k, v in rhist.items()},
         "successful_fits_with_non_finite_statistics_not_compared": getattr(run, "nonfinite_stats", 0)})
     run.samples = [{"meta": c["meta"], "scalar": c["scalar"], "ctor": c["ctor"]} for c, r in idx[:3]]
     run.assumptions = ["rounding margin 64 u sqrt(N (M+P)) relative to ||H^T H|| ||Cov||"]
